@@ -14,6 +14,9 @@
        iv_avl_tree_insert refuses a duplicate key with -1, iv_avl_tree_delete
        removes the node of a given watch (and is an explicit outcome BadDelete
        when that node is not in the tree);
+       A record whose len is not a multiple of 4 makes the next record
+       misaligned (undefined behaviour in C, reported by UBSan): outcome
+       Misaligned.  The kernel pads names to a multiple of 16;
      - the termination pointer ->term with three states: Uninit (the field of a
        freshly malloc'ed, poisoned struct), Null, Local (points to the local
        variable `this` of the running iv_inotify_got_event frame);
@@ -213,6 +216,7 @@ Inductive outcome : Type :=
 | WildWrite          (* *this->term = NULL through an uninitialised or dangling ->term *)
 | BadDelete          (* iv_avl_tree_delete of a node that is not in the tree *)
 | Truncated          (* a record header or name extends past the bytes read() returned *)
+| Misaligned         (* struct inotify_event accessed at an address that is not a multiple of 4 *)
 | Crash.             (* out of model: fuel, loop entered without a frame *)
 
 (* ---------- the API functions ---------- *)
@@ -386,14 +390,16 @@ Definition deliver_one (sc : scripts) (s : state) (i : id) (ir : inst)
       end
   end.
 
-(* while (curr < end) { ... }   rest = the bytes from curr to end *)
-Fixpoint loop (fuel : nat) (sc : scripts) (s : state) (rest : list Z) : outcome * list delivery :=
+(* while (curr < end) { ... }   rest = the bytes from curr to end; al = curr is 4-byte aligned
+   (event_queue itself is: an array of >= 16 bytes has 16-byte alignment in the x86-64 ABI) *)
+Fixpoint loop (fuel : nat) (sc : scripts) (s : state) (al : bool) (rest : list Z) : outcome * list delivery :=
   match rest with
   | [] => (Ok s, [])
   | _ :: _ =>
       match fuel with
       | O => (Crash, [])
       | S f =>
+          if negb al then (Misaligned, []) else
           match frame s with
           | Some (Some i) =>
               match itab s i with
@@ -408,7 +414,7 @@ Fixpoint loop (fuel : nat) (sc : scripts) (s : state) (rest : list Z) : outcome 
                           let rest' := zskip (len + 16) rest in   (* curr += event->len + sizeof( *event) *)
                           match frame s3 with
                           | Some None => (Ok s3, tr1)             (* if (this == NULL) break; *)
-                          | _ => let '(o, tr2) := loop f sc s3 rest' in (o, tr1 ++ tr2)
+                          | _ => let '(o, tr2) := loop f sc s3 (len mod 4 =? 0) rest' in (o, tr1 ++ tr2)
                           end
                       | bad => bad
                       end
@@ -458,7 +464,7 @@ Definition got_event (sc : scripts) (s : state) (i : id) (rs : list readres) : o
               match set_term s i TLocal with           (* this->term = (void ** )&this; *)
               | Ok s0 =>
                   let s1 := set_frame s0 (Some (Some i)) in
-                  let '(o, tr) := loop (length q) sc s1 q in
+                  let '(o, tr) := loop (length q) sc s1 true q in
                   match o with
                   | Ok s2 =>
                       match frame s2 with
